@@ -129,6 +129,11 @@ def run_insn(job):
                 res["asts"].append(None)
                 res.setdefault("unmapped", []).append(f"{type(e).__name__}: {e}")
         holder = c.transformer.il_ops_holder
+        if job.get("fresh_counter", True):
+            # the numbering of h_tmpN continues over the life of a Compiler (hybrid_op_count is never reset), so the
+            # emitted names depend on which instructions this worker compiled before; compile every instruction as a
+            # fresh Compiler would (history dependence itself is the subject of C14 / C08)
+            holder.hybrid_op_count = 0
         res["hpre"] = holder.hybrid_op_count
         try:
             with contextlib.redirect_stdout(io.StringIO()):
@@ -177,6 +182,52 @@ def signatures():
     return {"subs": subs, "macros": macs}
 
 
+def run_history(job):
+    """one history in THIS (fresh) process: up to two Compiler instances, steps through the public entry points"""
+    from vt import tree2ast
+    out = {"id": job["id"], "steps": []}
+    try:
+        with contextlib.redirect_stdout(io.StringIO()), contextlib.redirect_stderr(io.StringIO()):
+            from rzilcompiler.ArchEnum import ArchEnum
+            from rzilcompiler.Compiler import Compiler
+            from rzilcompiler.Parser import ParsedInsn
+            from rzilcompiler.Transformer.RZILTransformer import CodeFormat
+            comps = {}
+            for st in job["steps"]:
+                ci = st.get("c", 0)
+                if ci not in comps:
+                    comps[ci] = Compiler(ArchEnum.HEXAGON, code_format=CodeFormat[st.get("fmt", "READ_STATEMENTS")])
+                c = comps[ci]
+                r = {"entry": st["entry"], "c": ci}
+                try:
+                    if st["entry"] == "stmt":
+                        r.update(ok=True, text=c.compile_c_stmt(st["code"]))
+                    elif st["entry"] == "insn":
+                        try:
+                            tree = c.parser.parse(st["code"])
+                        except Exception as e:
+                            r.update(ok=False, exc=type(e).__name__, stage="parse")
+                            out["steps"].append(r)
+                            continue
+                        try:
+                            r["ast"] = tree2ast.program(tree)
+                        except Exception as e:
+                            r["unmapped"] = str(e)
+                        ri = c.transform_insn(st.get("name", "T_insn"), ParsedInsn(st.get("name", "T_insn"), [tree], [st["code"]]))
+                        r.update(ok=True, text=ri.rzil[0], meta=list(ri.meta[0]))
+                    elif st["entry"] == "sub":
+                        c.add_sub_routine(st["name"], st["ret"], st["params"], st["code"])
+                        r.update(ok=True, text=c.sub_routines[st["name"]].body)
+                    else:
+                        r.update(ok=False, exc="HARNESS:unknown entry")
+                except Exception as e:
+                    r.update(ok=False, **exc_info(e))
+                out["steps"].append(r)
+    except Exception as e:
+        out["error"] = traceback.format_exc()[-600:]
+    return out
+
+
 def main():
     req = json.load(sys.stdin)
     jobs = req["jobs"]
@@ -185,6 +236,12 @@ def main():
     if req.get("signatures"):
         with contextlib.redirect_stdout(io.StringIO()):
             out["signatures"] = signatures()
+    if req.get("histories"):
+        import multiprocessing as mp
+        ctx = mp.get_context("fork")
+        hs = req["histories"]
+        with ctx.Pool(min(nproc, max(1, len(hs))), maxtasksperchild=1) as pool:
+            out["histories"] = pool.map(run_history, hs, chunksize=1)
     if jobs:
         if nproc <= 1 or len(jobs) < 4:
             results = [run_job(j) for j in jobs]
